@@ -10,7 +10,7 @@ LEVEL = "model_checking"
 ENGINE = "E1 bounded-exhaustive generation-tree explorer"
 RULE = (
     "every star-power list of <= K phrases (start 0..5, length 0..4, ordered by start, ties in both orders) x every "
-    "non-empty set of note ticks within 0..8, x placements of the S lines (before / after / merged with the N lines); "
+    "non-empty set of note ticks within 0..8 (unsustained; and with notes held for 2 / 7 ticks or only the first held for 9, on the <= 1-phrase layer and the 6-tick slice of the 2-phrase layer), x placements of the S lines (before / after / merged with the N lines); "
     "distinct = distinct section text; non-trivial = at least one phrase and one note"
 )
 ASSUMPTIONS = [
@@ -55,9 +55,14 @@ def plan(tier, seed):
     )
 
 
+SUSTAIN = 0  # module switch: 0, or a length written on every note line (notes held across phrase ends)
+
+
 def body_for(phr, notes, placement):
     S = ["%d = S 2 %d" % p for p in phr]
-    N = ["%d = N 0 0" % t for t in notes]
+    N = ["%d = N 0 %d" % (t, SUSTAIN if (SUSTAIN >= 0 or i == 0) else 0) for i, t in enumerate(notes)]
+    if SUSTAIN < 0:
+        N = ["%d = N 0 %d" % (t, -SUSTAIN if i == 0 else 0) for i, t in enumerate(notes)]
     if placement == "before":
         return S + N
     if placement == "after":
@@ -67,7 +72,7 @@ def body_for(phr, notes, placement):
         while i < len(phr) and phr[i][0] <= t:
             out.append(S[i])
             i += 1
-        out.append("%d = N 0 0" % t)
+        out.append(N[notes.index(t)])
     return out + S[i:]
 
 
@@ -131,11 +136,14 @@ def run_shard(shard, ctx):
                 if p[0] <= q[0]:
                     check_list(ctx, (p, q), ("before",), 5, base)
         return
+    global SUSTAIN
     if kind == "k1":
-        if shard[1] < 0:
-            check_list(ctx, (), ("merged",))
-        else:
-            check_list(ctx, (PHR[shard[1]],), ("before", "after", "merged"))
+        for SUSTAIN in (0, 7, 2, -9):
+            if shard[1] < 0:
+                check_list(ctx, (), ("merged",))
+            else:
+                check_list(ctx, (PHR[shard[1]],), ("before", "after", "merged") if SUSTAIN == 0 else ("before",))
+        SUSTAIN = 0
     elif kind == "k2":
         p = PHR[shard[1]]
         ctx.node()
@@ -144,6 +152,9 @@ def run_shard(shard, ctx):
                 if ctx.out_of_time():
                     return
                 check_list(ctx, (p, q), ("before",), shard[2])
+                for SUSTAIN in (7, 2, -9):
+                    check_list(ctx, (p, q), ("before",), 6)
+                SUSTAIN = 0
     elif kind == "k3":
         p, q = PHR[shard[1]], PHR[shard[2]]
         ctx.node(2)
